@@ -304,6 +304,13 @@ def _rust_order_guards(ctx) -> None:
         n += 1
         value_based = [c for c in conds if any(re.match(r"^\(_\d+\.\d+: u32\)$", o) for o in c[1])]
         positional = [c for c in conds if any(names.get(o) and f.types.get(o) in ("u8", "bool", "u32", "usize") for o in c[1])]
+        if not value_based and not positional:
+            # decided some other way (a helper consuming a template of designators, a string comparison): nothing here says
+            # it is wrong, and nothing this rule knows says it is right
+            ctx.unverified("ORDER-GUARD", f"rs:parse_duration/bb{b.idx}:{msg[:40]}",
+                           f"error `{msg}` is not guarded by a test on a rank / flag local ({[(c[0], [names.get(o, o) for o in c[1]]) for c in conds]})",
+                           "rust/src/parsing.rs")
+            continue
         ctx.ob("ORDER-GUARD", f"rs:parse_duration/bb{b.idx}:{msg[:40]}", not value_based and bool(positional),
                f"error `{msg}` is guarded by {[(c[0], [names.get(o, o) for o in c[1]]) for c in conds]}; the guard must test the position of "
                f"the last designator, not whether earlier components are non-zero" if value_based or not positional else
